@@ -36,7 +36,8 @@ type Direct struct {
 	Protos   map[string]*descriptorpb.FileDescriptorProto // every file reachable from the compiled names that came from texts
 	Deps     map[string][]string                          // dependency lists of every reachable file (incl. standard imports)
 	NoSyntax map[string]bool
-	Unused   map[string]map[string]bool // file -> unused import paths
+	Unused   map[string]map[string]bool    // file -> unused import paths
+	All      []protoreflect.FileDescriptor // every reachable file (incl. standard imports), each after its imports
 }
 
 // directCompile compiles names (in the given order) over texts; imports not in texts fall back to
@@ -97,6 +98,7 @@ func directCompile(texts map[string]string, names []string) *Direct {
 		for i := 0; i < imports.Len(); i++ {
 			walk(imports.Get(i).FileDescriptor)
 		}
+		d.All = append(d.All, f)
 	}
 	for _, f := range files {
 		walk(f)
